@@ -38,7 +38,11 @@ for _l in LITS:
     assert len(_c) == 1, (_l, _c)
     VOCAB.append((_l, next(iter(_c))))
 
-LINE_FORMS = ["# %d", "#line %d", '# %d "g.h"', '#line %d "d/e.c"', '# %d "g.h" 1 3', '  #  %d "x.h"', "#\tline %d", '# %d "a b.c" 2']
+LINE_FORMS = [
+    "# %d", "#line %d", '# %d "g.h"', '#line %d "d/e.c"', '# %d "g.h" 1 3', '  #  %d "x.h"', "#\tline %d", '# %d "a b.c" 2',
+    # file names spelled with escapes (Windows paths): a name ending in an escaped backslash, an escaped quote inside, the empty name
+    '# %d "C:\\\\dir\\\\"', '#line %d "\\\\"', '# %d "q\\"r.c" 1', '# %d ""', '#line %d "..\\\\inc\\\\a.h" 3 4', '# %d "\\\\\\\\srv\\\\share\\\\" 2',
+]
 PRAGMA_BODIES = ["", "once", "omp parallel for", "pack(1) ", '"str" { } @ `', "x\ty", "# 3", "line 5"]
 
 
